@@ -207,6 +207,8 @@ func checkC12(p *Prog, r *Report) {
 	pnftViewsAgree(p, r, kp)
 	checkInitGenesisCallers(p, r, "C12", "x/pnft")
 	checkPnftViewsDoNotRewriteEntities(p, r, kp)
+	// an in-place migration of the module rewrites no token, class or owner record
+	checkModuleMigrationsWriteNoData(p, r, kp)
 	checkNoUnseparatedCompositeMapKeys(p, r, func(rule, rest string) string { return rule + ":C12:" + rest }, "x/pnft")
 	wireKeyOwnership(p, r, BuildWire(p), "C12", "pnft", []string{"x/pnft/keeper.NewKeeper"}, "denoms and tokens")
 }
@@ -676,4 +678,62 @@ func checkPnftIdsExcludeDelimiter(p *Prog, r *Report, kp func(string, string) st
 		}
 	}
 	r.Floor("identifier-introducing-effects(pnft)", n, 2)
+}
+
+
+// checkPnftClassDeleteGuard: the class delete of C12-D2 on its own (shared with C08: tokens of a deleted denom are still answered
+// by the token queries but are not exported — the export walks the existing denoms).
+func checkPnftClassDeleteGuard(p *Prog, r *Report, kp func(string, string) string) {
+	n := 0
+	for _, fn := range sortedFuncs(p.ServerHandlers("MsgServer")["x/pnft"]) {
+		hn := FuncName(fn)
+		w := pnftEffectsFrom(p, fn)
+		for _, e := range w.effects {
+			if e.Kind != "raw:Delete" {
+				continue
+			}
+			n++
+			ok, wit := false, ""
+			for _, a := range e.Cond.Atoms() {
+				t := a.Term
+				if t == nil || t.Op != "eq" {
+					continue
+				}
+				x, y := t.Args[0], t.Args[1]
+				if x.Op != "const" {
+					x, y = y, x
+				}
+				if x.Op == "const" && x.Name == "0" && y.IsCall("(sdk/x/nft/keeper.Keeper).GetTotalSupply") && len(y.Args) == 3 &&
+					rawKeyID(e.Key) != nil && y.Args[2].Eq(rawKeyID(e.Key)) && Entails(e.Cond, a) {
+					ok, wit = true, a.String()
+				}
+			}
+			r.Check(ok, kp("GUARD", hn+"→"+e.Kind+"#no-tokens-left"), "guarded effect: a class is deleted only when x/nft reports zero supply for the same class id (no orphan tokens)", p.Pos(e.Instr.Pos()), wit,
+				"the class delete is not dominated by GetTotalSupply(ctx, same id) == 0: the tokens of a deleted denom are still answered by the token queries, but the export walks the existing denoms only — they are gone after an export/import")
+		}
+	}
+	r.Count("pnft-class-deletes", n)
+}
+
+
+// checkPnftHandlersWriteExportedStateOnly (C08): PNFT handlers change state through the x/nft keeper's class, token and owner
+// records — the records the export walks and the import re-creates. A family of the module's own written with a raw Set is not in
+// the genesis file: whatever the import rebuilds from the exported denoms and tokens need not be what the handlers left there.
+func checkPnftHandlersWriteExportedStateOnly(p *Prog, r *Report, kp func(string, string) string) {
+	n, nBad := 0, 0
+	for _, fn := range sortedFuncs(p.ServerHandlers("MsgServer")["x/pnft"]) {
+		hn := FuncName(fn)
+		for _, e := range pnftEffectsFrom(p, fn).effects {
+			n++
+			if e.Kind != "raw:Set" {
+				continue
+			}
+			nBad++
+			r.Fail(kp("WMC", hn+"→"+e.Kind+"@"+FuncName(e.Fn)+"#exported"), "what PNFT handlers write is what the export walks (x/nft class, token and owner records)", p.Pos(e.Instr.Pos()),
+				fmt.Sprintf("%s writes the pnft store directly (%s, chain %s): this family is not part of the exported genesis, so a chain started from the export answers from whatever the import rebuilds — not from what the handlers left (stale or missing entries differ)", hn, FuncName(e.Fn), strings.Join(e.Chain, " -> ")))
+		}
+	}
+	if nBad == 0 {
+		r.OK(kp("WMC", "pnft-handlers#write-exported-state-only"), "what PNFT handlers write is what the export walks (x/nft class, token and owner records)", "x/pnft/keeper", fmt.Sprintf("%d effects on the handlers' call trees, no raw Set", n))
+	}
 }
